@@ -24,16 +24,17 @@ structure ActOk (s0 : IState) (a : Action) (s' : IState) : Prop where
   gas : measure s' + a.gasLimit + 1 ≤ measure s0
   ret : RetOk a (clen s'.mem)
 
-def DoneGood (s0 : IState) : Done → Prop
-  | .next s' => Next s0 s'
-  | .action a s' => ActOk s0 a s'
-  | .halt _ _ s' => Halt s0 s'
-  | .fault _ => False
+/-- what one resolved instruction may do (inductive predicates: looking at a statement never evaluates the
+instruction) -/
+inductive DoneGood (s0 : IState) : Done → Prop
+  | next {s' : IState} (h : Next s0 s') : DoneGood s0 (.next s')
+  | action {a : Action} {s' : IState} (h : ActOk s0 a s') : DoneGood s0 (.action a s')
+  | halt {r : IResult} {o : List Nat} {s' : IState} (h : Halt s0 s') : DoneGood s0 (.halt r o s')
 
 /-- what one instruction may do, started in `s0` (after the opcode fetch) -/
-def Good (s0 : IState) : Outcome → Prop
-  | .pure d => DoneGood s0 d
-  | .host _ k => ∀ r, RespOk r → DoneGood s0 (k r)
+inductive Good (s0 : IState) : Outcome → Prop
+  | pure {d : Done} (h : DoneGood s0 d) : Good s0 (.pure d)
+  | host {op : HostOp} {k : HostResp → Done} (h : ∀ r, RespOk r → DoneGood s0 (k r)) : Good s0 (.host op k)
 
 section ctl
 variable {s0 s : IState}
@@ -41,14 +42,14 @@ variable {s0 s : IState}
 theorem toDone_good (hs : Start s0) {e : Exec Unit}
     (h : Exec.Sat e (Halt s0) (fun _ s' => Done1 s0 s')) : DoneGood s0 e.toDone := by
   cases h with
-  | ok h => exact Done1.next hs h
-  | halt h => exact h
+  | ok h => exact .next (Done1.next hs h)
+  | halt h => exact .halt h
 
 theorem toDone_next {e : Exec Unit}
     (h : Exec.Sat e (Halt s0) (fun _ s' => Next s0 s')) : DoneGood s0 e.toDone := by
   cases h with
-  | ok h => exact h
-  | halt h => exact h
+  | ok h => exact .next h
+  | halt h => exact .halt h
 
 /-- the action post-condition before the instruction pointer is looked at -/
 def ActRel (s0 : IState) (a : Action) (s' : IState) : Prop :=
@@ -70,8 +71,8 @@ theorem ActRel.ok (hs : Start s0) {a : Action} {s' : IState} (h : ActRel s0 a s'
 theorem toDoneAction_good (hs : Start s0) {e : Exec Action}
     (h : Exec.Sat e (Halt s0) (fun a s' => ActRel s0 a s')) : DoneGood s0 e.toDoneAction := by
   cases h with
-  | ok h => exact ActRel.ok hs h
-  | halt h => exact h
+  | ok h => exact .action (ActRel.ok hs h)
+  | halt h => exact .halt h
 
 /-! ### PUSHn, JUMP, JUMPI -/
 
